@@ -22,11 +22,19 @@ TRAIN_LISTS = {
 }
 
 
-def mc_stage(tier):
+def mc_stage(tier, pid='C10'):
     mod = os.path.join(core.SPEC, 'MC_Omen.tla')
     cfg = os.path.join(core.SPEC, 'MC_Omen_%s.cfg' % tier)
     r = core.tlc_must_pass(mod, cfg, 'Omen %s' % tier, timeout=3000)
-    return {'cfg': os.path.basename(cfg), 'states': r.distinct, 'transitions': r.generated, 'wall_s': round(r.wall, 1)}, cfg
+    out = {'cfg': os.path.basename(cfg), 'states': r.distinct, 'transitions': r.generated, 'wall_s': round(r.wall, 1)}
+    if pid in ('C10', 'C15'):
+        # the implementation-shaped generator model (cursors, parse tree backtracking, shared memo) against LevelSet
+        cfg2 = os.path.join(core.SPEC, 'MC_OmenEnum_%s.cfg' % tier)
+        r2 = core.tlc_must_pass(os.path.join(core.SPEC, 'MC_OmenEnum.tla'), cfg2, 'OmenEnum %s' % tier, timeout=6000)
+        out['generator_model'] = {'cfg': os.path.basename(cfg2), 'states': r2.distinct, 'transitions': r2.generated, 'wall_s': round(r2.wall, 1)}
+        out['states'] += r2.distinct
+        out['transitions'] += r2.generated
+    return out, cfg
 
 
 def export_models(mc_cfg):
@@ -130,8 +138,9 @@ def main(pid, tier, seed):
     t0 = time.time()
     rng = random.Random(seed)
     verdict = core.Verdict(pid)
-    mc, mc_cfg = mc_stage(tier)
+    mc, mc_cfg = mc_stage(tier, pid)
     work = core.scratch('omen')
+    step_traces = []
     traces, meta = [], {}
     tid = 0
     maxlv = 4
@@ -146,6 +155,12 @@ def main(pid, tier, seed):
             hs = ['fresh', 'shared_shuffled'] if tier == 'quick' else ['fresh', 'shared_ascending', 'shared_shuffled', 'twice']
             tr, tid = level_traces(tid, d, list(range(0, maxlv + 2)), hs, rng, meta, {'kind': 'model-checked model', 'model': m})
             traces += tr
+        for k, m in enumerate(sample[:60 if tier == 'quick' else 600]):
+            lv = list(range(0, maxlv + 2))
+            rng.shuffle(lv)
+            stt = omen.step_trace(len(step_traces) + 1, os.path.join(work, 'm%d' % k), lv[:4])
+            if stt:
+                step_traces.append(stt)
         nrand = 120 if tier == 'quick' else 1500
         for k in range(nrand):
             b = [None, None, None, 'ln10', 'ip10', 'ln0'][k % 6]
@@ -158,6 +173,12 @@ def main(pid, tier, seed):
             tr, tid = level_traces(tid, d, levels, ['shared_shuffled'], rng, meta,
                                    {'kind': 'random model', 'boundary': b, 'model': m}, cap=3000)
             traces += tr
+            if k % 3 == 0 and b not in ('ln10', 'ip10'):
+                lv = list(levels)
+                rng.shuffle(lv)
+                stt = omen.step_trace(len(step_traces) + 1, d, lv[:4])
+                if stt:
+                    step_traces.append(stt)
         for name, pws, ngram, asz, cov in trainings(tier, rng)[:6 if tier == 'quick' else 40]:
             res = train.train(pws, ngram=ngram, alphabet_size=asz, coverage=cov)
             if not res['ok']:
@@ -276,6 +297,14 @@ def main(pid, tier, seed):
                               'clauses %s; %s' % (failing, core.short({k: m[k] for k in m if k not in ('model',)}, 300)))
     verdict.matcher('C10-F8-all-level-10', lambda w: w.get('boundary') in ('ln10', 'ip10') and w.get('failing') == ['C10_generator_raised'])
     verdict.matcher('C18-F7-keyspace-undercount', lambda w: w.get('failing') and set(w['failing']) <= {'C18_keyspace_is_level_size', 'C18_generator_emits_that_many', 'C18_saved_probability'} and False)
+    # ---- I-layer conformance (drift only): every next_guess() of the real generator against OmenEnum.tla ----
+    conf = None
+    if step_traces:
+        sv, sst = core.validate_traces('TrOmenEnum.tla', step_traces, chunk=12, timeout=900)
+        bad = [(t['tid'], sv[t['tid']]) for t in step_traces if sv[t['tid']][0] != 'ACCEPT']
+        conf = {'step_traces': len(step_traces), 'next_guess_calls': sum(len(r['steps']) for t in step_traces for r in t['rounds']),
+                'compared': 'guess, parse tree, length / initial n-gram cursors after every call; the whole shared memo after every level',
+                'result': 'drift' if bad else 'conforms', 'drift_examples': [list(b[1]) for b in bad[:3]], 'tlc': sst}
     rc, n_viol, n_known = verdict.finish()
     nontriv = [t for t in traces if (t['kind'] == 'level' and len(t['ev']) > 1) or t['kind'] in ('agree', 'keyspace')]
     distinct = len({json.dumps({k: v for k, v in t.items() if k != 'tid'}, sort_keys=True) for t in nontriv})
@@ -288,6 +317,7 @@ def main(pid, tier, seed):
                    'C18: one trace = keyspace rows of one model / trained ruleset; C11: one trace = one trained ruleset with all candidate strings',
            'models_in_checked_space': n_models_total,
            'trace_validation': st, 'exhaustive': False, 'known_findings_reproduced': n_known,
+           'impl_conformance': conf,
            'violation_histogram': verdict.histogram()}
     core.write_evidence(pid, tier, seed, 'model_checking' if pid != 'C11' else 'exploration', cov, time.time() - t0, violations=n_viol,
                         assumptions=['TLC', 'the smoothing logarithm that assigns levels is not modelled: level tables are data',
